@@ -122,6 +122,22 @@ func genC04(seed uint64, tier string) *plan.Plan {
 			stale[k] = current[k]
 			delete(current, k)
 			add(client, t.templateMsg(hdr()), "template-empty")
+		case x == 7 && current[k] != nil:
+			// A message that is not IPFIX (version 9, 0, 11) from some client: refused as a whole. What
+			// its body looks like - here a template for an id in force, another layout or cut short -
+			// is nobody's business: the table stays as it is.
+			t := genTemplate(r, k.dom, k.id, tmplOpts{maxFields: 4})
+			for len(t.Fields) == 0 {
+				t = genTemplate(r, k.dom, k.id, tmplOpts{maxFields: 4})
+			}
+			b := t.templateMsg(hdr())
+			if r.IntN(3) == 0 {
+				b = b[:len(b)-2]
+				b[2], b[3] = byte(len(b)>>8), byte(len(b))
+				b[18], b[19] = byte((len(b)-16)>>8), byte(len(b)-16)
+			}
+			b[0], b[1] = 0, []byte{9, 0, 11, 5}[r.IntN(4)]
+			add(client, b, "badversion-template")
 		case x < 6: // bad template, fails before the id can be read
 			b := ipfixref.EncodeMessage(ipfixref.Header{Domain: k.dom}, ipfixref.EncodeSet(2, []byte{1, 0}[:r.IntN(3)]))
 			add(client, b, "badtemplate-noid")
